@@ -40,9 +40,9 @@ func (P) Engine() string { return "E1" }
 
 func (P) Describe() harness.Description {
 	return harness.Description{
-		MustHit: []string{"bbr_evaluated", "load_reading_injected", "cpu_reading_injected", "outbound_admitted_while_inbound_gated"},
+		MustHit: []string{"rule_edited_and_reloaded", "bbr_evaluated", "load_reading_injected", "cpu_reading_injected", "outbound_admitted_while_inbound_gated"},
 		Level:   "exploration",
-		Rule: "case = (statistic geometry, 0-4 system rules over the five metric types and both strategies; 20-100 ops: start inbound / outbound request on 2 resources, complete request j (duration = virtual time, ok/error), inject load / CPU readings, ticks biased to bucket and window boundaries). " +
+		Rule: "case = (statistic geometry, 0-4 system rules over the five metric types and both strategies; 20-100 ops: start inbound / outbound request on 2 resources, complete request j (duration = virtual time, ok/error), inject load / CPU readings, edit one field (strategy or trigger) of a loaded rule and reload the list, ticks biased to bucket and window boundaries). " +
 			"Outbound requests must never get a system block; an inbound request is blocked with BlockTypeSystemFlow iff some loaded rule is violated by the reference inbound aggregates (pass QPS and average RT over the aligned metric window of the tallied inbound events, live inbound count, injected load / CPU; BBR: in-flight > peak per-bucket completion rate x minimum RT). " +
 			"non-trivial = an inbound request was blocked and a later one admitted while outbound traffic continued; distinct = hash(config, ops)",
 		Assumptions: []string{
@@ -93,7 +93,10 @@ func (P) Gen(rng *sim.Rng, tier string) *harness.Case {
 				ops = append(ops, harness.Op{K: "done", E: started - 1 - rng.Intn(minInt(started, 5)), F: rng.Chance(0.2)})
 			}
 		case 3:
-			if rng.Chance(0.5) {
+			if len(cfg.Rules) > 0 && rng.Chance(0.25) {
+				// edit one field of one loaded rule and reload the list (the predicate in force is the latest load)
+				ops = append(ops, harness.Op{K: "edit", R: rng.Intn(len(cfg.Rules)), N: uint64(rng.Intn(2)), V: []float64{0, 0.5, 1, 2, 3, 8}[rng.Intn(6)]})
+			} else if rng.Chance(0.5) {
 				ops = append(ops, harness.Op{K: "load", V: []float64{0, 0.5, 1, 2.5, 3, 9}[rng.Intn(6)]})
 			} else {
 				ops = append(ops, harness.Op{K: "cpu", V: []float64{0, 0.3, 0.31, 0.5, 0.95, 1}[rng.Intn(6)]})
@@ -193,6 +196,37 @@ func (P) Exec(c *harness.Case) *harness.Outcome {
 			clk.AdvanceMs(op.N)
 			o.SimMs += op.N
 			ref.Prune(now, 3*uint64(cfg.Geo.GlobalInterval))
+		case "edit":
+			if len(mrules) == 0 || op.R < 0 {
+				continue
+			}
+			i := op.R % len(mrules)
+			nr := append([]SRule{}, mrules...)
+			if op.N == 0 {
+				nr[i].BBR = !nr[i].BBR
+			} else {
+				if op.V < 0 || (nr[i].Metric == 4 && op.V > 1) {
+					continue
+				}
+				nr[i].Trigger = op.V
+			}
+			var l []*system.Rule
+			for _, r := range nr {
+				st := system.NoAdaptive
+				if r.BBR {
+					st = system.BBR
+				}
+				l = append(l, &system.Rule{ID: r.ID, MetricType: mt[r.Metric], TriggerCount: r.Trigger, Strategy: st})
+			}
+			if !harness.Call(o, "C07.panic", step, func() {
+				if _, err := system.LoadRules(l); err != nil {
+					o.Fail("C07.load-error", step, "%v", err)
+				}
+			}) || o.Failed() {
+				return o
+			}
+			mrules = nr
+			o.Probe("rule_edited_and_reloaded")
 		case "load":
 			load = op.V
 			system_metric.SetSystemLoad(op.V)
